@@ -46,6 +46,13 @@ result = dict(meta.get('confirmed') or {}) if recheck else {}
 result.update(seed=sid, property=prop)
 try:
     rc, out = sh('git -C %s apply %s' % (wt, patch))
+    rebased = None
+    if rc != 0:
+        # /repo moved on (fix: commits) since the change was written: three-way apply, keep the rebased patch
+        rc, out = sh('git -C %s apply --3way %s' % (wt, patch))
+        if rc == 0:
+            sh('git -C %s reset -q' % wt)
+            rebased = sh('git -C %s diff' % wt)[1]
     result['patch_applies'] = rc == 0
     assert rc == 0, out
     if not recheck:
@@ -110,6 +117,9 @@ os.makedirs(dst, exist_ok=True)
 if not recheck:
     for f in ('patch.diff', 'demo.py'):
         shutil.copy(os.path.join(src, f), dst)
+    if rebased:
+        shutil.copy(os.path.join(src, 'patch.diff'), os.path.join(dst, 'patch.orig.diff'))
+        open(os.path.join(dst, 'patch.diff'), 'w').write(rebased)
     meta_out = {'property': prop, 'summary': meta.get('summary'), 'needs_to_manifest': meta.get('needs_to_manifest'),
                 'author': 'independent sub-agent given only the property text and a scratch worktree',
                 'author_notes': {k: meta[k] for k in meta if k not in ('property', 'summary', 'needs_to_manifest')},
@@ -117,6 +127,10 @@ if not recheck:
 else:
     meta_out = meta
     meta_out['confirmed'] = result
+    if rebased:
+        if not os.path.exists(os.path.join(dst, 'patch.orig.diff')):
+            shutil.copy(os.path.join(dst, 'patch.diff'), os.path.join(dst, 'patch.orig.diff'))
+        open(os.path.join(dst, 'patch.diff'), 'w').write(rebased)
 json.dump(meta_out, open(os.path.join(dst, 'meta.json'), 'w'), indent=1)
 print(json.dumps({k: result.get(k) for k in ('seed', 'demo_confirms', 'detected')}),
       'suite_ok=%s' % result.get('suite', {}).get('ok'), 'rc=%s' % rc, result['check']['first'][:1],
